@@ -346,6 +346,7 @@ Definition pop_of (o : eop) : pop :=
   | ETrack e t => PTrack e t
   | EInval d => PInval d
   | EReset => PReset
+  | ERemove e => PRemove e
   end.
 
 Definition m_ret (s : pstate) (r : eres) : option nat :=
@@ -419,7 +420,7 @@ From Dae Require Import C13_EpFine.
 Inductive fcmd := FStepT (i : nat) | FAtom (o : pop).
 
 Definition fevent := (nat * nat * nat)%type.   (* (0,e,thread) dial  (1,thread,e) hand-out  (2,e,0) write ok
-                                                  (3,e,0) write error  (4,d,0) invalidation  (5,0,0) reset *)
+                                                  (3,e,0) write error  (4,d,0) invalidation  (5,0,0) reset  (7,e,0) Remove(handle e) *)
 Definition fv (a b c : nat) : fevent := (a, b, c).
 
 Definition gpc_of (s : fstate) (i : nat) : gpc :=
@@ -493,6 +494,11 @@ Definition fevents (s s' : fstate) (c : fcmd) : list fevent :=
                               else []
                   | None => []
                   end
+              | FAtom (PRemove h) =>
+                  match nth_error (p_handles (f_p s)) h with
+                  | Some e => if existsb (fun x => snd x =? e) (f_hand s) then [fv 7 h 0] else []
+                  | None => []
+                  end
               | _ => [] end in
   atom.
 
@@ -542,7 +548,11 @@ Definition hist_step (thr : list (nat * nat * nat * nat)) (st : list sep * list 
   let '(eps, errs) := st in
   let kd := fun i => match nth_error thr i with Some (k, d, _, _) => (k, d) | None => (0, 0) end in
   match ev with
-  | (0, e, i) => (eps ++ [mkSE (fst (kd i)) (snd (kd i)) false false], errs)
+  | (0, e, i) =>
+      (* code 5: a dial for a key while an endpoint of that key is alive (never retired / invalidated before
+         traffic / reset / removed) *)
+      (eps ++ [mkSE (fst (kd i)) (snd (kd i)) false false],
+       errs ++ (if existsb (fun x => (se_key x =? fst (kd i)) && negb (se_gone x)) eps then [5] else []))
   | (1, i, e) =>
       match nth_error eps e with
       | Some x => (eps, errs ++ (if se_gone x then [1] else if se_key x =? fst (kd i) then [] else [4]))
@@ -552,6 +562,7 @@ Definition hist_step (thr : list (nat * nat * nat * nat)) (st : list sep * list 
   | (3, e, _) => (lupd eps e (fun x => mkSE (se_key x) (se_dialer x) (se_sent x) true), errs)
   | (4, d, _) => (map (fun x => if (se_dialer x =? d) && negb (se_sent x) then mkSE (se_key x) (se_dialer x) false true else x) eps, errs)
   | (5, _, _) => (map (fun x => mkSE (se_key x) (se_dialer x) (se_sent x) true) eps, errs)
+  | (7, e, _) => (lupd eps e (fun x => mkSE (se_key x) (se_dialer x) (se_sent x) true), errs)
   | _ => st
   end.
 
